@@ -573,7 +573,7 @@ Section C04B.
         - assert (N : d <> t) by (intros ->; rewrite fid_eqb_refl in Edt; discriminate).
           destruct U2 as (_ & B2 & _). rewrite (B2 d N) in Hgd. rewrite <- Hgd. symmetry. apply Old.
           apply (S_ok_alloc S s d). apply (pk_ok _ _ _ _ HPk). exact Hd. }
-      destruct (tk_deps tk ++ futs (extract y')); cbn [c_mode c_st]; split; assumption.
+      destruct (futs (extract y')); cbn [c_mode c_st]; split; assumption.
     - (* Enter *)
       unfold enter_ctx, get_task. rewrite Hg.
       set (tk1 := tk_with_ctxs tk (tk_ctxs tk ++ [c]) (tk_cact tk)).
